@@ -31,6 +31,25 @@ class Skeleton:
         self.concrete = concrete
 
 
+def with_len2(sk, slot):
+    """the same skeleton with slot `slot` spelled with two symbolic letters (thorough tiers): names can
+    then be proper prefixes / substrings of each other and of concrete words, which is what rope's
+    textual occurrence scanners have to tell apart"""
+    if slot is None:
+        return sk
+    lens = dict(sk.lens)
+    lens[slot] = 2
+    return Skeleton(sk.name, sk.files, sk.entry, lens, sk.tags)
+
+
+def len2_variants(sk, tier):
+    """[(suffix, slot-or-None)]: quick = the skeleton as written; thorough adds one variant per slot"""
+    out = [("", None)]
+    if tier == "thorough":
+        out += [(".len2s%d" % k, k) for k in range(sk.nslots) if sk.lens.get(k, 1) == 1]
+    return out
+
+
 def reserved_for(sk, extra=()):
     """A2: spellings a slot may never take (same-length only matters)"""
     r = set(sk.concrete) | set(keyword.kwlist) | set(getattr(keyword, "softkwlist", [])) | set(dir(builtins)) | set(extra)
